@@ -40,7 +40,7 @@ def drv(NA, NB=None, elem=0, **kw):
     return d
 
 
-NT, TM, MO, MOT, CO, TRIV, INT = range(7)
+NT, TM, MO, MOT, CO, TRIV, INT, MA, MC = range(9)
 
 
 def traits_mc(pocca, pocma, pocs, ae):
@@ -90,11 +90,18 @@ def jobs_for(tier, seed):
         J.append(job(one(2), drv(2, elem=TRIV), 0, 3000, {'one', 'triv'}, 'one N=2 trivially copyable twin'))
         J.append(job(one(2), drv(2, elem=INT, ALLOC=0), 0, 1500, {'one', 'triv', 'stdalloc'}, 'one N=2 int, std::allocator'))
         J.append(job(one(2, IsStd=True), drv(2, elem=NT, ALLOC=0), 1, 700, {'one', 'fault', 'tracked', 'stdalloc'}, 'one N=2 std::allocator'))
-        # two containers: rotate through the 16 trait combinations with the seed (3 per run)
-        for i in range(3):
-            tr = ALL_TRAITS[(rot + 5 * i) % 16]
-            J.append(job(two(2, 2, **traits_mc(*tr)), drv(2, 2, elem=NT, **traits_drv(*tr)), 1, 1300,
-                         {'two', 'fault', 'tracked', 'traits'}, 'two N=2,2 traits ca/ma/s/ae=%d%d%d%d' % tr))
+        # two containers: the trait dispatch is the essence of C07 / C09 -- all 16 combinations every time,
+        # a stratified sample of each instance (faults on a seed-rotated quarter of them)
+        for i, tr in enumerate(ALL_TRAITS):
+            fm = 1 if (i + rot) % 4 == 0 else 0
+            J.append(job(two(2, 2, **traits_mc(*tr)), drv(2, 2, elem=NT if i % 2 == 0 else TM, **traits_drv(*tr)), fm, 450 if fm else 700,
+                         {'two', 'tracked', 'traits'} | ({'fault'} if fm else set()), 'two N=2,2 traits ca/ma/s/ae=%d%d%d%d' % tr))
+        # mixed exception specifications (nothrow move-assign + throwing move-ctor and vice versa): the internal
+        # noexcept specifications must be at least as weak as what the routine really does (C18)
+        J.append(job(two(2, 2, **traits_mc(0, 1, 0, 0)), drv(2, 2, elem=MA, POCMA=1), 1, 500, {'two', 'tracked', 'traits', 'fault'}, 'two N=2,2 POCMA, nothrow move-assign / throwing move-ctor'))
+        J.append(job(two(2, 3, IsStd=True, allocids=(0,)), drv(2, 3, elem=MA, ALLOC=0), 1, 500, {'two', 'tracked', 'fault', 'mixedN', 'stdalloc'}, 'two N=2,3 std::allocator, nothrow move-assign / throwing move-ctor'))
+        J.append(job(two(2, 2, **traits_mc(0, 0, 1, 1)), drv(2, 2, elem=MC, POCS=1, AE=1), 1, 500, {'two', 'tracked', 'traits', 'fault'}, 'two N=2,2 POCS+AE, throwing move-assign / nothrow move-ctor'))
+        J.append(job(one(2, nothrow=False), drv(2, elem=MC), 1, 600, {'one', 'tracked', 'fault'}, 'one N=2 throwing move-assign / nothrow move-ctor'))
         tr = ALL_TRAITS[(rot + 7) % 16]
         J.append(job(two(0, 2, **traits_mc(*tr)), drv(0, 2, elem=TM, **traits_drv(*tr)), 1, 800,
                      {'two', 'fault', 'tracked', 'traits', 'mixedN'}, 'two N=0,2 traits %d%d%d%d' % tr))
@@ -133,6 +140,12 @@ def jobs_for(tier, seed):
                 J.append(job(two(na, nb, **traits_mc(*tr)), drv(na, nb, elem=TM, **traits_drv(*tr)), 1, 5000,
                              {'two', 'fault', 'tracked', 'traits', 'mixedN'}, 'two N=%d,%d traits %d%d%d%d' % ((na, nb) + tr)))
         J.append(job(two(2, 2, IsStd=True, allocids=(0,)), drv(2, 2, elem=NT, ALLOC=0), 1, None, {'two', 'tracked', 'stdalloc', 'fault'}, 'two N=2,2 std::allocator'))
+        for el in (MA, MC):
+            for (na, nb, tr) in ((2, 2, (0, 1, 0, 0)), (2, 3, (0, 1, 1, 0)), (3, 2, (0, 0, 0, 1)), (2, 2, (0, 0, 1, 1)), (0, 2, (0, 1, 0, 0))):
+                J.append(job(two(na, nb, **traits_mc(*tr)), drv(na, nb, elem=el, **traits_drv(*tr)), 1, 6000, {'two', 'tracked', 'traits', 'fault', 'mixedN'},
+                             'two N=%d,%d traits %d%d%d%d mixed-noexcept element %d' % ((na, nb) + tr + (el,))))
+            J.append(job(two(2, 3, IsStd=True, allocids=(0,)), drv(2, 3, elem=el, ALLOC=0), 1, 6000, {'two', 'tracked', 'fault', 'mixedN', 'stdalloc'}, 'two N=2,3 std::allocator mixed-noexcept element %d' % el))
+            J.append(job(one(2, nothrow=False, maxlen=4), drv(2, elem=el), 1, None, {'one', 'tracked', 'fault'}, 'one N=2 mixed-noexcept element %d' % el))
         J.append(job(two(2, 2, copyable=False, **traits_mc(0, 0, 0, 0)), drv(2, 2, elem=MOT), 1, 6000, {'two', 'tracked', 'fault'}, 'two N=2,2 move-only throwing'))
         J.append(job(two(2, 2, SOCCC=1, **traits_mc(1, 0, 1, 0)), drv(2, 2, elem=NT, SOCCC=1, POCCA=1, POCS=1), 0, None, {'two', 'tracked', 'traits'}, 'two N=2,2 marked select_on_container_copy_construction'))
         for (N, M) in ((2, 5), (0, 6), (3, 7)):
